@@ -187,6 +187,8 @@ type c11tr struct {
 	hasRet bool
 	fail   string
 	subst  map[string]string // printed sub-expression -> Lean variable (opaque reads: the clock, an atomic load, a field)
+	mk     string            // if set: what a function without result value returns (a structure instance built from the field variables)
+	recs   map[string]bool   // local identifiers that are records (Lean structures): `id.f` is the projection
 }
 
 func (t *c11tr) bad(n ast.Node, why string) string {
@@ -246,6 +248,9 @@ func (t *c11tr) expr(e ast.Expr) string {
 			return f
 		}
 		if id, ok := x.X.(*ast.Ident); ok {
+			if t.recs[id.Name] {
+				return id.Name + "." + x.Sel.Name
+			}
 			return "(fld_" + x.Sel.Name + " " + id.Name + ")"
 		}
 		return t.bad(e, "selector")
@@ -319,6 +324,9 @@ func (t *c11tr) expr(e ast.Expr) string {
 }
 
 func (t *c11tr) result(val string) string {
+	if val == "" && t.mk != "" {
+		return t.mk
+	}
 	parts := []string{}
 	for _, o := range t.outs {
 		parts = append(parts, o)
@@ -506,6 +514,224 @@ func (e *emitter) c11CondFn(s *source, rel, goName string, idx int, leanName, bi
 	e.printf("/-- condition #%d `%s` of `%s` in %s -/\ndef %s %s : Bool :=\n  %s\n\n", idx, strings.ReplaceAll(s.src(conds[idx]), "-/", "- /"), goName, rel, leanName, binders, body)
 }
 
+// ---- options, defaults and forwarded arguments of the public constructors, as Lean records and functions
+
+// c11IntFields returns the names of the fields of struct type `typeName` (all must be int / time.Duration).
+func (s *source) c11IntFields(rel, typeName string) ([]string, string) {
+	f := s.file(rel)
+	if f == nil {
+		return nil, "file not found"
+	}
+	for _, d := range f.Decls {
+		gd, ok := d.(*ast.GenDecl)
+		if !ok || gd.Tok != token.TYPE {
+			continue
+		}
+		for _, sp := range gd.Specs {
+			ts := sp.(*ast.TypeSpec)
+			if ts.Name.Name != typeName {
+				continue
+			}
+			st, ok := ts.Type.(*ast.StructType)
+			if !ok {
+				return nil, "not a struct"
+			}
+			var out []string
+			for _, fl := range st.Fields.List {
+				ty := s.src(fl.Type)
+				if ty != "int" && ty != "time.Duration" {
+					return nil, "field type " + ty
+				}
+				for _, n := range fl.Names {
+					out = append(out, n.Name)
+				}
+			}
+			return out, ""
+		}
+	}
+	return nil, "type not found"
+}
+
+// c11RecordDef emits `structure leanName where f : Int …` for a Go struct of int / duration fields.
+func (e *emitter) c11RecordDef(s *source, rel, typeName, leanName string) []string {
+	fields, why := s.c11IntFields(rel, typeName)
+	if why != "" {
+		e.errors = append(e.errors, fmt.Sprintf("struct %s in %s: %s", typeName, rel, why))
+		e.printf("/-- NOT TRANSLATED (%s): struct %s in %s -/\nstructure %s where\n  missing : Unit := ()\n\n", why, typeName, rel, leanName)
+		return nil
+	}
+	e.printf("/-- the Go struct `%s` of %s (int and time.Duration fields are `Int`) -/\nstructure %s where\n", typeName, rel, leanName)
+	for _, f := range fields {
+		e.printf("  %s : Int\n", f)
+	}
+	e.printf("  deriving DecidableEq, Repr\n\n")
+	return fields
+}
+
+func c11Mk(fields []string, lean string) string {
+	var parts []string
+	for _, f := range fields {
+		parts = append(parts, f+" := f_"+f)
+	}
+	return "({ " + strings.Join(parts, ", ") + " } : " + lean + ")"
+}
+
+// c11OptionSetter translates `func WithX(p T) Opt { return func(o *S) { o.f = e; … } }` into
+// `def leanName (o : S) (p : Int) : S` (the closure applied to a record).
+func (e *emitter) c11OptionSetter(s *source, rel, fnName, leanName, recLean string, fields []string) {
+	fail := func(why string) {
+		e.errors = append(e.errors, fmt.Sprintf("%s: option setter outside the translated subset (%s)", fnName, why))
+		e.printf("/-- NOT TRANSLATED (%s): %s in %s -/\ndef %s : Unit := ()\n\n", why, fnName, rel, leanName)
+	}
+	fd := s.findFunc(rel, fnName)
+	if fd == nil || fields == nil {
+		fail("function or record not found")
+		return
+	}
+	var params []string
+	for _, p := range fd.Type.Params.List {
+		for _, n := range p.Names {
+			params = append(params, "("+n.Name+" : Int)")
+		}
+	}
+	if len(fd.Body.List) != 1 {
+		fail("body is not a single return")
+		return
+	}
+	ret, ok := fd.Body.List[0].(*ast.ReturnStmt)
+	if !ok || len(ret.Results) != 1 {
+		fail("body is not a single return")
+		return
+	}
+	fl, ok := ret.Results[0].(*ast.FuncLit)
+	if !ok || len(fl.Type.Params.List) != 1 || len(fl.Type.Params.List[0].Names) != 1 {
+		fail("does not return a one-parameter closure")
+		return
+	}
+	t := &c11tr{s: s, rel: rel, strs: map[string]bool{}, recv: fl.Type.Params.List[0].Names[0].Name, mk: c11Mk(fields, recLean)}
+	for _, f := range fields {
+		t.outs = append(t.outs, "f_"+f)
+	}
+	body := t.stmts(fl.Body.List, "  ")
+	if t.fail != "" {
+		fail(t.fail)
+		return
+	}
+	e.printf("/-- the closure returned by `%s` in %s, applied to a record -/\ndef %s (o_ : %s) %s : %s :=\n", fnName, rel, leanName, recLean, strings.Join(params, " "), recLean)
+	for _, f := range fields {
+		e.printf("  let f_%s := o_.%s\n", f, f)
+	}
+	e.printf("%s\n\n", body)
+}
+
+// c11RecordLit translates `func f() S { return S{ f: const, … } }` into `def leanName : S`; constants are looked up
+// in the file itself and in `more`.
+func (e *emitter) c11RecordLit(s *source, rel, fnName, leanName, recLean string, fields []string, more ...string) {
+	fail := func(why string) {
+		e.errors = append(e.errors, fmt.Sprintf("%s: defaults outside the translated subset (%s)", fnName, why))
+		e.printf("/-- NOT TRANSLATED (%s): %s in %s -/\ndef %s : Unit := ()\n\n", why, fnName, rel, leanName)
+	}
+	fd := s.findFunc(rel, fnName)
+	if fd == nil || fields == nil || len(fd.Body.List) != 1 {
+		fail("function or record not found / body is not a single return")
+		return
+	}
+	ret, ok := fd.Body.List[0].(*ast.ReturnStmt)
+	if !ok || len(ret.Results) != 1 {
+		fail("body is not a single return")
+		return
+	}
+	cl, ok := ret.Results[0].(*ast.CompositeLit)
+	if !ok {
+		fail("does not return a composite literal")
+		return
+	}
+	vals := map[string]string{}
+	for _, el := range cl.Elts {
+		kv, ok := el.(*ast.KeyValueExpr)
+		if !ok {
+			fail("positional literal")
+			return
+		}
+		var v constant.Value
+		found := false
+		for _, file := range append([]string{rel}, more...) {
+			if v, found = s.eval(file, kv.Value); found && v.Kind() == constant.Int {
+				break
+			}
+			found = false
+		}
+		if !found {
+			fail("field value is not an integer constant: " + s.src(kv.Value))
+			return
+		}
+		vals[s.src(kv.Key)] = v.ExactString()
+	}
+	var parts []string
+	for _, f := range fields {
+		v, ok := vals[f]
+		if !ok {
+			v = "0" // Go's zero value for a field the literal leaves out
+		}
+		parts = append(parts, fmt.Sprintf("%s := (%s : Int)", f, v))
+	}
+	e.printf("/-- the record returned by `%s` in %s (constants evaluated) -/\ndef %s : %s := { %s }\n\n", fnName, rel, leanName, recLean, strings.Join(parts, ", "))
+}
+
+// c11Forward translates one forwarded argument of a constructor into a Lean function of the local record `rec`:
+// the value of field `field` in the composite literal of type `litType`, or (field == "") argument #arg of the call to `callee`.
+func (e *emitter) c11Forward(s *source, rel, fnName, leanName, rec, recLean, litType, field, callee string, arg int) {
+	fd := s.findFunc(rel, fnName)
+	var found ast.Expr
+	if fd != nil {
+		ast.Inspect(fd.Body, func(n ast.Node) bool {
+			if found != nil {
+				return false
+			}
+			switch x := n.(type) {
+			case *ast.CompositeLit:
+				if field != "" && x.Type != nil && s.src(x.Type) == litType {
+					for _, el := range x.Elts {
+						if kv, ok := el.(*ast.KeyValueExpr); ok && s.src(kv.Key) == field {
+							found = kv.Value
+						}
+					}
+				}
+			case *ast.CallExpr:
+				if field == "" && s.src(x.Fun) == callee && arg < len(x.Args) {
+					found = x.Args[arg]
+				}
+			}
+			return true
+		})
+	}
+	if found == nil {
+		e.errors = append(e.errors, fmt.Sprintf("%s: forwarded argument %s%s#%d not found", fnName, litType+"."+field, callee, arg))
+		e.printf("/-- MISSING forwarded argument in %s -/\ndef %s : Unit := ()\n\n", fnName, leanName)
+		return
+	}
+	t := &c11tr{s: s, rel: rel, strs: map[string]bool{}, recs: map[string]bool{rec: true}}
+	body := t.expr(found)
+	if t.fail != "" {
+		e.errors = append(e.errors, fmt.Sprintf("%s: forwarded argument outside the translated subset (%s)", fnName, t.fail))
+		e.printf("/-- NOT TRANSLATED forwarded argument in %s -/\ndef %s : Unit := ()\n\n", fnName, leanName)
+		return
+	}
+	e.printf("/-- `%s` in %s forwards `%s` -/\ndef %s (%s : %s) : Int :=\n  %s\n\n", fnName, rel, strings.ReplaceAll(s.src(found), "-/", "- /"), leanName, rec, recLean, body)
+}
+
+// c11OptLoop lists how the constructor applies its options: the range statement, printed.
+func (s *source) c11Ranges(fd *ast.FuncDecl) []string {
+	var out []string
+	ast.Inspect(fd.Body, func(n ast.Node) bool {
+		if r, ok := n.(*ast.RangeStmt); ok {
+			out = append(out, s.src(r))
+		}
+		return true
+	})
+	return out
+}
+
 func init() {
 	register("C11", func(s *source, e *emitter) {
 		const f = "core/executors/periodicalexecutor.go"
@@ -629,5 +855,33 @@ func init() {
 		e.c11Translated(s, q, "dbInserter.Execute", "sqlxExecuteFn",
 			"{B : Type} (cast : B → List String) (len : List String → Int) (strLen : String → Int) (join : List String → String → String) (f_stmt_prefix f_stmt_suffix : String) (bulk : B)",
 			nil, []string{"in.stmt.suffix"}, "in.sqlConn.Exec")
+		// the public constructors: option records, defaults, option setters and forwarded arguments as Lean functions
+		const vars = "core/executors/vars.go"
+		bf := e.c11RecordDef(s, b, "bulkOptions", "BulkOptionsX")
+		cf := e.c11RecordDef(s, c, "chunkOptions", "ChunkOptionsX")
+		e.c11RecordLit(s, b, "newBulkOptions", "newBulkOptionsFn", "BulkOptionsX", bf, vars)
+		e.c11RecordLit(s, c, "newChunkOptions", "newChunkOptionsFn", "ChunkOptionsX", cf, vars)
+		e.c11OptionSetter(s, b, "WithBulkTasks", "withBulkTasksFn", "BulkOptionsX", bf)
+		e.c11OptionSetter(s, b, "WithBulkInterval", "withBulkIntervalFn", "BulkOptionsX", bf)
+		e.c11OptionSetter(s, c, "WithChunkBytes", "withChunkBytesFn", "ChunkOptionsX", cf)
+		e.c11OptionSetter(s, c, "WithFlushInterval", "withFlushIntervalFn", "ChunkOptionsX", cf)
+		e.c11Forward(s, b, "NewBulkExecutor", "newBulkThresholdFn", "options", "BulkOptionsX", "bulkContainer", "maxTasks", "", 0)
+		e.c11Forward(s, b, "NewBulkExecutor", "newBulkIntervalFn", "options", "BulkOptionsX", "", "", "NewPeriodicalExecutor", 0)
+		e.c11Forward(s, c, "NewChunkExecutor", "newChunkThresholdFn", "options", "ChunkOptionsX", "chunkContainer", "maxChunkSize", "", 0)
+		e.c11Forward(s, c, "NewChunkExecutor", "newChunkIntervalFn", "options", "ChunkOptionsX", "", "", "NewPeriodicalExecutor", 0)
+		e.c11List(s, b, "NewBulkExecutor", "newBulkRanges", "how the options are applied", s.c11Ranges)
+		e.c11List(s, c, "NewChunkExecutor", "newChunkRanges", "how the options are applied", s.c11Ranges)
+		// delegating entry points: the calls they make, WITH their argument lists
+		e.c11List(s, b, "BulkExecutor.Add", "bulkAddCalls", "delegated calls with arguments", func(fd *ast.FuncDecl) []string { return s.c11Calls(fd, "be.") })
+		e.c11List(s, b, "BulkExecutor.Flush", "bulkFlushCalls", "delegated calls with arguments", func(fd *ast.FuncDecl) []string { return s.c11Calls(fd, "be.") })
+		e.c11List(s, b, "BulkExecutor.Wait", "bulkWaitCalls", "delegated calls with arguments", func(fd *ast.FuncDecl) []string { return s.c11Calls(fd, "be.") })
+		e.c11List(s, c, "ChunkExecutor.Add", "chunkAddCalls", "delegated calls with arguments", func(fd *ast.FuncDecl) []string { return s.c11Calls(fd, "ce.") })
+		e.c11List(s, c, "ChunkExecutor.Flush", "chunkFlushCalls", "delegated calls with arguments", func(fd *ast.FuncDecl) []string { return s.c11Calls(fd, "ce.") })
+		e.c11List(s, c, "ChunkExecutor.Wait", "chunkWaitCalls", "delegated calls with arguments", func(fd *ast.FuncDecl) []string { return s.c11Calls(fd, "ce.") })
+		e.c11List(s, q, "BulkInserter.Insert", "sqlxInsertCalls", "delegated calls with arguments", func(fd *ast.FuncDecl) []string { return s.c11Calls(fd, "bi.executor.", "format") })
+		e.c11List(s, q, "BulkInserter.Flush", "sqlxFlushCalls", "delegated calls with arguments", func(fd *ast.FuncDecl) []string { return s.c11Calls(fd, "bi.executor.") })
+		e.c11List(s, q, "BulkInserter.UpdateOrDelete", "sqlxUpdateOrDeleteCalls", "delegated calls with arguments", func(fd *ast.FuncDecl) []string { return s.c11Calls(fd, "bi.executor.", "fn") })
+		e.c11List(s, f, "NewPeriodicalExecutor", "newShutdownCalls", "what the shutdown listener does", func(fd *ast.FuncDecl) []string { return s.c11Calls(fd, "proc.", "executor.") })
+		e.c11List(s, f, "PeriodicalExecutor.executeTasks", "executeTasksCalls", "calls with arguments", func(fd *ast.FuncDecl) []string { return s.c11Calls(fd, "pe.", "threading.") })
 	})
 }
